@@ -14,6 +14,21 @@ use vexplore::evidence::*;
 fn main_check(ctx: &Ctx) -> Outcome {
     let mut out = Outcome::default();
     let quick = ctx.quick();
+    // the lock()ed strip streams over the real stdout / stderr (single-threaded, first): what was written before and
+    // after lock() must together come out as the stripped form of the whole input, for every cut position
+    {
+        let (n, bad) = vchecks::stdio_sys::lock_chunking_violations();
+        for (case, message) in bad.into_iter().take(20) {
+            out.findings.push(Finding {
+                system: "StripStream/AutoStream::never over real stdio: write_all; lock(); write_all".into(),
+                clause: "delivered-differs-from-consumed-prefix".into(),
+                case: vec![case],
+                message,
+                replay: json!({"kind":"lock"}),
+            });
+        }
+        out.push_part(json!({"part":"write_all; lock(); write_all over the real stdout/stderr redirected to files, every cut position","cases":n}));
+    }
     let maxlen = if quick { 5 } else { 7 };
     let k_of = move |len: usize| if quick { if len <= 4 { 3 } else { 2 } } else if len <= 6 { 3 } else { 2 };
     let (findings, runs, deviating, max_points) = sweep(Mode::Strip, maxlen, &k_of);
@@ -42,6 +57,12 @@ fn main_check(ctx: &Ctx) -> Outcome {
 }
 
 fn replay(v: &serde_json::Value) -> Result<(), String> {
+    if v["kind"] == "lock" {
+        return match vchecks::stdio_sys::lock_chunking_violations().1.first() {
+            Some((c, m)) => Err(format!("{c}: {m}")),
+            None => Ok(()),
+        };
+    }
     if v["kind"] == "large" {
         return replay_large(v);
     }
